@@ -11,9 +11,9 @@ INVS = ["Truthful", "NoInjectedAckLeaks", "InjectedIdsFresh", "CompletionExact",
 
 
 def _cfg(consts, invs=True, spec="MSpec", sample=1):
-    s = ("SPECIFICATION %s\nCONSTANTS MinEp = %d MaxEp = %d MaxInj = %d MaxAcks = %d Tries = %d Interval = 3 Reorder = %d Depth = %d SampleOneIn = %d W = %d Disps <- %s\n"
+    s = ("SPECIFICATION %s\nCONSTANTS MinEp = %d MaxEp = %d MaxInj = %d MaxAcks = %d Tries = %d Interval = 3 Reorder = %d Depth = %d SampleOneIn = %d W = %d Disps <- %s EpOn = %s\n"
          % (spec, consts.get("MinEp", 1), consts["MaxEp"], consts["MaxInj"], consts["MaxAcks"], consts["Tries"], consts["Reorder"], consts["Depth"], sample,
-            consts.get("W", 0), consts.get("Disps", "DispsCore")))
+            consts.get("W", 0), consts.get("Disps", "DispsCore"), "FALSE" if consts.get("EpOn") is False else "TRUE"))
     if invs:
         s += "".join("INVARIANT %s\n" % i for i in INVS)
     if spec == "SSpec":
@@ -60,6 +60,7 @@ class DropAddon:
 
 _WINDOW = None     # tracker window of the configuration being replayed (None = the code's default 10000)
 _UNIT = 1.0        # seconds per model clock unit: Circuit.resend_every is configured to Interval (3) units
+_TRIES = 10        # retry budget of the configuration being replayed (ReliableResendInfo.tries_left, default 10)
 
 
 class Impl:
@@ -98,6 +99,7 @@ class Impl:
                 # the proxy now owns a reliable packet: its completion signal is the resend table's future
                 info = env.circuit.unacked_reliable.get((d, cp.packet_id))
                 if info is not None:
+                    info.tries_left = _TRIES
                     self.futs[(act["d"], cp.packet_id)] = info.completed
             seen = self.addon.seen
             if seen is not None:
@@ -114,6 +116,9 @@ class Impl:
             try:
                 if act["rel"]:
                     fut = env.circuit.send_reliable(m)
+                    info = env.circuit.unacked_reliable.get((d, m.packet_id))
+                    if info is not None:
+                        info.tries_left = _TRIES
                     self.futs[(act["d"], m.packet_id)] = fut
                 else:
                     env.circuit.send(m)
@@ -288,9 +293,10 @@ def _prefetch(chk, plan):
 
 def _b1_sim(chk: Check, consts, label, num, sample):
     """Sampled deep behaviours (TLC -simulate), each replayed step by step."""
-    global _B, _WINDOW, _UNIT
+    global _B, _WINDOW, _UNIT, _TRIES
     _WINDOW = consts.get("W") or None
     _UNIT = consts.get("Unit", 1.0)
+    _TRIES = consts["Tries"]
     res = _PRE.pop(label).result() if label in _PRE else _sim_tlc(chk, consts, label, num, sample)
     m = __import__("re").search(r"The number of states generated: (\d+)", res.out)
     if res.violated or res.errors or not m:
@@ -313,9 +319,10 @@ def _b1_sim(chk: Check, consts, label, num, sample):
 
 
 def _b1(chk: Check, consts, label, pairs=None):
-    global _G, _WINDOW, _UNIT
+    global _G, _WINDOW, _UNIT, _TRIES
     _WINDOW = consts.get("W") or None
     _UNIT = consts.get("Unit", 1.0)
+    _TRIES = consts["Tries"]
     if label in _PRE:
         res = _PRE.pop(label).result()
         if not res.ok:
@@ -354,13 +361,14 @@ def run(chk: Check):
                         "a dropped standalone PacketAck may lose its Packets blocks (the property only claims piggy-backed acks of a dropped packet)",
                         "the packet ID of the PacketAck that carries a dropped packet's appended acks is the proxy's choice",
                         "virtual clock replaces datetime in hippolyzer.lib.base.message.circuit; resend_unacked is called after every tick",
-                        "the configured cadence Circuit.resend_every is 3 model clock units; a unit is 1 s (the default 3.0 s), 0.5 s or 0.25 s depending on the configuration"]
+                        "the retry budget (ReliableResendInfo.tries_left) is the code's default 10 in the budget* configurations and set to 2 or 3 on each proxy packet in others, so that exhaustion is reached within the depth bound", "the configured cadence Circuit.resend_every is 3 model clock units; a unit is 1 s (the default 3.0 s), 0.5 s or 0.25 s depending on the configuration"]
     if chk.tier == "quick":
         plan = [
-            ("b1", dict(MaxEp=2, MaxInj=2, MaxAcks=2, Tries=10, Reorder=1, Depth=4, Unit=0.5), "exhaustive-d4", None),
+            ("b1", dict(MaxEp=2, MaxInj=2, MaxAcks=2, Tries=2, Reorder=1, Depth=4, Unit=0.5), "exhaustive-d4", None),
+            ("b1", dict(MaxEp=1, MaxInj=1, MaxAcks=1, Tries=10, Reorder=0, Depth=13, EpOn=False), "budget10-d13", 3000),
             ("b1", dict(MinEp=0, MaxEp=1, MaxInj=1, MaxAcks=1, Tries=10, Reorder=1, Depth=3), "from0-d3", 2000),
             ("b1", dict(MaxEp=2, MaxInj=3, MaxAcks=1, Tries=10, Reorder=0, Depth=3, Disps="DispsTakes"), "takes-d3", 2000),
-            ("sim", dict(MaxEp=3, MaxInj=3, MaxAcks=2, Tries=10, Reorder=1, Depth=9, Disps="DispsAll"), "simulate-d9", 150, 12),
+            ("sim", dict(MaxEp=3, MaxInj=3, MaxAcks=2, Tries=3, Reorder=1, Depth=9, Disps="DispsAll"), "simulate-d9", 150, 12),
             ("sim", dict(MinEp=0, MaxEp=2, MaxInj=3, MaxAcks=2, Tries=10, Reorder=1, Depth=9), "simulate-from0-d9", 80, 12),
             ("sim", dict(MaxEp=1, MaxInj=1, MaxAcks=1, Tries=10, Reorder=0, Depth=14, Unit=0.25), "budget-d14", 300, 3),
             ("sim", dict(MaxEp=3, MaxInj=4, MaxAcks=1, Tries=10, Reorder=1, Depth=10, W=1), "evict-W1-d10", 150, 10),
@@ -369,10 +377,11 @@ def run(chk: Check):
         # depth 5 with the quick constants is ~10x the depth-4 graph: the exhaustive part stays at depth 4 with
         # many more merge pairs, depth is explored by the sampled behaviours
         plan = [
-            ("b1", dict(MaxEp=2, MaxInj=2, MaxAcks=2, Tries=10, Reorder=1, Depth=4, Unit=0.5), "exhaustive-d4", 60000),
+            ("b1", dict(MaxEp=2, MaxInj=2, MaxAcks=2, Tries=2, Reorder=1, Depth=4, Unit=0.5), "exhaustive-d4", 60000),
+            ("b1", dict(MaxEp=1, MaxInj=2, MaxAcks=1, Tries=10, Reorder=0, Depth=14, EpOn=False, Unit=0.5), "budget10-d14", 20000),
             ("b1", dict(MinEp=0, MaxEp=1, MaxInj=2, MaxAcks=1, Tries=10, Reorder=1, Depth=4), "from0-d4", 20000),
             ("b1", dict(MaxEp=2, MaxInj=3, MaxAcks=1, Tries=10, Reorder=0, Depth=4, Disps="DispsTakes"), "takes-d4", 20000),
-            ("sim", dict(MaxEp=3, MaxInj=3, MaxAcks=2, Tries=10, Reorder=1, Depth=10, Disps="DispsAll"), "simulate-d10", 700, 12),
+            ("sim", dict(MaxEp=3, MaxInj=3, MaxAcks=2, Tries=3, Reorder=1, Depth=10, Disps="DispsAll"), "simulate-d10", 700, 12),
             ("sim", dict(MinEp=0, MaxEp=2, MaxInj=3, MaxAcks=2, Tries=10, Reorder=1, Depth=10), "simulate-from0-d10", 500, 12),
             ("sim", dict(MaxEp=1, MaxInj=1, MaxAcks=1, Tries=10, Reorder=0, Depth=16, Unit=0.25), "budget-d16", 1500, 3),
             ("sim", dict(MaxEp=3, MaxInj=4, MaxAcks=1, Tries=10, Reorder=1, Depth=11, W=1), "evict-W1-d11", 600, 10),
